@@ -493,6 +493,30 @@ pub fn run_op3(op: &str, a: &[&str]) -> Option<String> {
             let hr: HandRange = es.into_iter().collect();
             Some(describe_range(&hr, false))
         }
+        // range_views <n> (combo wbits)* : only rank_pairs() and orphan_card_pairs() (any weights; nothing is printed as text)
+        "range_views" => {
+            let n: usize = a[0].parse().unwrap();
+            let es: Vec<(CardPair, f32)> = (0..n)
+                .map(|i| (pair_of(a[1 + 2 * i].parse::<usize>().unwrap()), f32::from_bits(a[2 + 2 * i].parse::<u32>().unwrap())))
+                .collect();
+            let hr: HandRange = es.into_iter().collect();
+            let rp = match guarded(|| {
+                let mut v: Vec<String> = hr.rank_pairs().iter().map(|(k, w)| format!("{}:{}", rank_pair_key(k), w.to_bits())).collect();
+                v.sort();
+                v
+            }) {
+                Some(v) => if v.is_empty() { "-".to_string() } else { v.join(",") },
+                None => "panic".to_string(),
+            };
+            let orph = match guarded(|| {
+                let mut v: Vec<(usize, u32)> = hr.orphan_card_pairs().iter().map(|(k, w)| (pair_code(k), w.to_bits())).collect();
+                fmt_entries(&mut v)
+            }) {
+                Some(s) => s,
+                None => "panic".to_string(),
+            };
+            Some(format!("ok rp={} orph={}", rp, orph))
+        }
         // canon <seed> <n> (combo wbits)* : the same contents built along different histories must print identically
         "canon" => {
             let seed: u64 = a[0].parse().unwrap();
